@@ -75,7 +75,7 @@ def load_metadata(username="master"):
             }
 
     # Immediately check for topological order.
-    check_topological_sort()
+    check_topological_sort(username)
 
 def check_topological_sort(username="master"):
     """For the given user, check the import relations have no cycles."""
